@@ -319,11 +319,11 @@ def _end_to_end(shard, nshards):
 
 
 CONTRACTS = [
-    Contract("wntr.sim.core:WNTRSimulator._update_internal_graph", P + ["C01"], _upd_cases,
+    Contract("wntr.sim.core:WNTRSimulator._update_internal_graph", P + ["C01", "C02"], _upd_cases,
              note="one single link + one node pair with three parallel links; every listed status combination; csr data is a symbolic array",
              trusted=["ControlChangeTracker.get_changes('graph') lists the (link, 'status') pairs whose status differs from the reference point (C05)",
                       "_initialize_internal_graph leaves data[ndx] = 1 iff some link of the pair is not closed (bounded stand-in C09.end_to_end)"]),
-    Contract("wntr.sim.core:WNTRSimulator._initialize_internal_graph", P + ["C10", "C01"], _init_cases,
+    Contract("wntr.sim.core:WNTRSimulator._initialize_internal_graph", P + ["C10", "C01", "C02"], _init_cases,
              note="fixed topology (a single link and a node pair with two parallel links, either orientation), every stored-status "
                   "combination incl. links closed internally by the simulator (the state a paused run leaves); scipy.sparse.csr_matrix and "
                   "_get_csr_data_index are executed natively on the concrete triplets of each case",
